@@ -42,7 +42,7 @@ DEFAULTS: Dict[str, Any] = dict(
     max_depth=3, ops_per_step=(2, 5), big_corr=False, autograd=False, bwd_annotation=True, step_gap=(0, 1, 1, 7),
     pre_ops=1, post_ops=1, first_step=None, file_order="time", p_plain_rt=0.08, kernel_durs=(0, 1, 5, 20, 60),
     launch_lat=(0, 0, 1, 3, 10), queue_lat=(0, 0, 1, 5, 40), device_pid=0, repeat_names=False, annotation_nest=False,
-    p_leaf_children=(0, 3), ops_pool=None, p_unlaunched=0.0, sync_straddle=False, source_counters=False, outer_frame=False, corr_zero=False, small_corr=False, tid_base=None, tid_desc=False, post_launch=False, exotic_launch=False, multi_process=False, graph_launch=False, p_zero_launch=0.0, nested_driver=False, p_annotation=0.15, main_autograd_op=False, pid_tid_clash=False, zero_tie=False, sync_tie=False,
+    p_leaf_children=(0, 3), ops_pool=None, p_unlaunched=0.0, sync_straddle=False, source_counters=False, outer_frame=False, corr_zero=False, small_corr=False, tid_base=None, tid_desc=False, post_launch=False, exotic_launch=False, multi_process=False, graph_launch=False, p_zero_launch=0.0, nested_driver=False, p_annotation=0.15, main_autograd_op=False, pid_tid_clash=False, zero_tie=False, sync_tie=False, autograd_threads=1,
 )
 
 
@@ -373,12 +373,13 @@ class Sim:
             if i == 0:
                 prog = self.main_prog(th)
             else:
-                if p["multi_process"] and not (p["autograd"] and i == 1):
+                if p["multi_process"] and not (p["autograd"] and 1 <= i <= p["autograd_threads"]):
                     # a worker in another host process of the same rank (data loader, launcher) whose thread id equals the
                     # main thread's: threads are identified by (pid, tid)
                     th["pid"] = self.host_pid + 100 * i
                     th["tid"] = ths[0][0]["tid"]
-                prog = self.side_prog(th, BWD if (p["autograd"] and i == 1) else self.ops_pool)
+                # autograd_threads > 1: several autograd worker threads (one per device in DataParallel, or re-entrant backward)
+                prog = self.side_prog(th, BWD if (p["autograd"] and 1 <= i <= p["autograd_threads"]) else self.ops_pool)
             ths.append((th, prog))
         for s in self.streams:
             self.free_at[s] = t0
